@@ -873,6 +873,8 @@ impl TxPoolService {
                 let snapshot = tx_pool.cloned_snapshot();
                 let tip_header = snapshot.tip_header();
                 let tx_env = Arc::new(status.with_env(tip_header));
+                #[cfg(ckb_verif)]
+                ckb_util::verif::point("pool::readd_before_verify");
                 if let Ok(verified) = verify_rtx(
                     snapshot,
                     Arc::clone(&rtx),
